@@ -110,7 +110,11 @@ def as_cell(snap, keys):
 
 def build_system(am, u):
     box = am.Box(vects=np.array(u['vects']), origin=np.array(u['origin']))
-    atoms = am.Atoms(atype=np.array(u['atype']), pos=np.array(u['pos']), idn=np.array(u['idn']), vec=np.array(u['vec']),
+    vec = np.array(u['vec'], float)
+    # a non-symmetric per-atom tensor (two trailing dimensions) that differs between atoms: replication code that
+    # tiles rank-1/2 properties correctly can still mis-order rank-3 ones (seeded change C04-2)
+    ten = np.einsum('ni,nj->nij', vec, np.roll(vec, 1, axis=1)) + np.asarray(u['idn'], float)[:, None, None]
+    atoms = am.Atoms(atype=np.array(u['atype']), pos=np.array(u['pos']), idn=np.array(u['idn']), vec=vec, ten=ten,
                      safecopy=True)
     return am.System(atoms=atoms, box=box, pbc=(True, True, True), symbols=u['symbols'])
 
